@@ -287,16 +287,28 @@ def _only_read_by_callee(idx, mod, fi, attr_node):
     """`<program>.command_library` appears as a positional argument of a call to a function of the package whose matching
     parameter is only read there: looked up (.get / [] load / in / iteration), never stored into, mutated, returned, kept or passed on"""
     call = None
+    kwname = None
     for c in own_nodes(fi.node):
         if isinstance(c, ast.Call) and any(a is attr_node for a in c.args):
             call = c
+        if isinstance(c, ast.Call) and any(k.value is attr_node and k.arg for k in c.keywords):
+            call = c
+            kwname = next(k.arg for k in c.keywords if k.value is attr_node)
     if call is None or not isinstance(call.func, ast.Name):
         return False
     if call.func.id in ("sorted", "list", "tuple", "set", "frozenset", "len", "iter", "any", "all", "min", "max", "enumerate") and (idx.qualname(mod, call.func, fi) or "builtins.").startswith("builtins."):
         return True  # a builtin that walks the table and hands back something new
-    pos = [i for i, a in enumerate(call.args) if a is attr_node][0]
     r = idx.resolve(mod, call.func, fi)
     callee = r[1] if r is not None and r[0] == "func" else None
+    if kwname is not None and callee is not None:
+        names_ = [a.arg for a in callee.node.args.args + callee.node.args.kwonlyargs]
+        if kwname not in names_:
+            return False
+        pos = names_.index(kwname) if kwname in [a.arg for a in callee.node.args.args] else 0
+    else:
+        pos = [i for i, a in enumerate(call.args) if a is attr_node][0]
+    if kwname is not None and callee is not None and kwname not in [a.arg for a in callee.node.args.args]:
+        return False
     if callee is None or pos >= len(callee.node.args.args):
         return False
     pn = callee.node.args.args[pos].arg
@@ -307,9 +319,18 @@ def _only_read_by_callee(idx, mod, fi, attr_node):
     for x in ast.walk(callee.node):
         if not (isinstance(x, ast.Name) and x.id == pn):
             continue
-        if isinstance(x.ctx, (ast.Store, ast.Del)):
+        if isinstance(x.ctx, ast.Store):
+            # p = set(p) / list(p) / frozenset(p): the name now holds a private copy of what was read
+            asg = par.get(id(x))
+            if isinstance(asg, ast.Assign) and len(asg.targets) == 1 and isinstance(asg.value, ast.Call) and K.src(asg.value.func) in ("set", "list", "tuple", "frozenset", "sorted", "dict") \
+                    and len(asg.value.args) == 1 and isinstance(asg.value.args[0], ast.Name) and asg.value.args[0].id == pn:
+                continue
+            return False
+        if isinstance(x.ctx, ast.Del):
             return False
         up = par.get(id(x))
+        if isinstance(up, ast.Call) and K.src(up.func) in ("set", "list", "tuple", "frozenset", "sorted", "dict", "len") and x in up.args:
+            continue
         # `(p or {})` is still p
         while isinstance(up, ast.BoolOp) and isinstance(up.op, ast.Or):
             x, up = up, par.get(id(up))
